@@ -102,9 +102,14 @@ def decode_result(line):
 
 class Driver:
     def __init__(self, variant="asan", target="vdrv"):
+        # variant "asan+leak": the asan build started with leak detection on (jobs then pass opt leakcheck=1)
+        env = {"PATH": "/usr/bin:/bin", "LLVM_SYMBOLIZER_PATH": "/usr/bin/llvm-symbolizer-14"}
+        if variant.endswith("+leak"):
+            variant = variant[:-5]
+            env["ASAN_OPTIONS"] = ("detect_leaks=1:halt_on_error=1:abort_on_error=0:exitcode=77:allocator_may_return_null=1:"
+                                   "detect_stack_use_after_return=0:handle_segv=1:symbolize=1:print_summary=1")
         self.path = exe(variant, target)
-        self.p = subprocess.Popen([self.path], stdin=subprocess.PIPE, stdout=subprocess.PIPE,
-                                  env={"PATH": "/usr/bin:/bin", "LLVM_SYMBOLIZER_PATH": "/usr/bin/llvm-symbolizer-14"})
+        self.p = subprocess.Popen([self.path], stdin=subprocess.PIPE, stdout=subprocess.PIPE, env=env)
 
     def run(self, job):
         self.p.stdin.write(encode_job(job))
